@@ -72,7 +72,7 @@ STATEMENTS = {
 TRUSTED = [
     'float(), uuid.UUID, datetime.strptime, json.loads as the reference conversions of the typed getters that are not modelled (the same CPython functions on the reference side); int() is modelled (Gt.pyInt) and compared with the real int() on every code point',
     'urllib.parse.unquote_to_bytes and str.split/partition inside the independent reference parser',
-    'falcon.testing.create_environ / create_scope as producers of WSGI environ / ASGI scope (QUERY_STRING passed through; scope query_string = UTF-8 bytes)',
+    'falcon.testing.create_environ / create_scope / create_scope_ws as producers of WSGI environ / ASGI http and websocket scopes (QUERY_STRING passed through; scope query_string = UTF-8 bytes); the apps are called directly with them (hand-written receive / send)',
 ]
 ASSUMPTIONS = [
     'query strings are str of Unicode scalar values; on ASGI the scope query_string is the UTF-8 encoding (a raw non-UTF-8 byte in an ASGI scope makes falcon.asgi.Request raise UnicodeDecodeError - outside the quantifier, reported separately)',
@@ -83,11 +83,16 @@ ASSUMPTIONS = [
     'boolean table of get_param_as_bool reads as that boolean (the code writes true / false, and True / False inside a comma-delimited list); names are str; str(value) must succeed (an int of more than 4300 digits is outside)',
     'the Cython twin falcon/cyutil/uri.pyx cannot be rebuilt offline and is not exercised',
     'Gt.pyInt models int(str) for ALL code points with the Unicode 15.0 decimal-digit table and sys.int_max_str_digits = 4300 of the running CPython 3.12 (both compared with unicodedata / sys on every run)',
+    'the options in force: on an application entry point (WSGI call, ASGI http scope, ASGI websocket scope) the values configured on app.req_options; for a request constructed without options the documented defaults keep_blank_qs_values=True, auto_parse_qs_csv=False',
     'req._params is a dict, modelled as an association list read with first-match lookup (the parser never repeats a key: Qs.parseQS_keys_nodup); store is a dict',
 ]
 RULE = ('ALL strings of length <= 4 (quick) / <= 5 (thorough) over {& = , + % 4 a g NUL e-acute} (11 111 / 111 111 strings) x the 4 combinations of keep_blank / csv, '
         'each parsed three ways (uri.parse_query_string, falcon.Request via create_environ, falcon.asgi.Request via create_scope with req_options) and compared with the '
-        'Lean parseQS and with the reference parser; plus, for each of ; # ? space / : @ and U+FEFF, every string of length <= 3 over {& = a X} containing X (x 4 options); plus EVERY ASCII character and 16 special code points '
+        'Lean parseQS and with the reference parser; plus, for every (string, option setting) of every generator, ONE further ENTRY POINT in rotation (5 entry points x 4 option settings, every pair comes up; counters entry_*): '
+        'a falcon.App called with the environ, a falcon.asgi.App called with an http scope, a falcon.asgi.App called with a WEBSOCKET scope (the handshake request handed to process_request_ws and on_websocket), '
+        'falcon.Request(env) and falcon.asgi.Request(scope, receive) constructed WITHOUT options (http and websocket scopes; judged under the documented defaults keep_blank=True, csv=False). On the app entry points the options are those configured on the application '
+        '(set on app.req_options or assigned as a RequestOptions object; request_type stock or a subclass; strip_url_path_trailing_slash and, on WSGI, the deprecated auto_parse_form_urlencoded switched on in half of the apps - 8 app variants per stack and option setting), '
+        'the request object is the one the middleware AND the responder received (same object), and its params / typed getters are judged by the reference reading under the configured options and put to the Lean parseQS / getter models with those options; plus, for each of ; # ? space / : @ and U+FEFF, every string of length <= 3 over {& = a X} containing X (x 4 options); plus EVERY ASCII character and 16 special code points '
         '(U+FEFF, zero-width / bidi marks, U+2028/9, NEL, NBSP, SHY, non-characters, U+FFFD, both neighbours of the surrogate gap, U+10FFFF) put as a would-be separator into 14 templates (inside names / values, between fields, next to escapes and CSV lists); '
         'plus ALL 22 x 22 spellings of a hex-digit pair after "%" (both cases, mixed within one escape) as name, value, alone and in continuation / lead position of 2- and 3-byte UTF-8 sequences; plus every special code point raw / escaped in upper, lower, mixed case / raw next to escaped '
         'at the START, inside and at the end of names and values; plus random longer strings over the alphabet, escape fragments (mixed-case escapes, any of the 484 pair spellings, escaped and raw separators, BOM and other special code points); '
@@ -95,7 +100,7 @@ RULE = ('ALL strings of length <= 4 (quick) / <= 5 (thorough) over {& = , + % 4 
         '(1-6 fields, repeated names, typed values for int/float/bool/uuid/date/datetime/json/list, CSV lists with blank elements, randomly percent-encoded). '
         'On every request object (for the length-5 strings: on one of the two request classes, alternating) every typed getter is called for every name present and one absent name with required/default/store/min/max variations '
         '(store: None, empty, or pre-filled with other keys and/or the name itself); the calls of get_param/_as_int/_as_bool/_as_list are also put to the Lean getter model (all of them, one half on the exhaustive strings) comparing result and store contents in order. '
-        'Random dictionaries go through to_query_str and back (both list styles, direct and via request objects) and through the Lean toQueryStr; '
+        'Random dictionaries go through to_query_str and back (both list styles, direct and via request objects - constructed, or handed out by a WSGI app / ASGI app on an http or websocket scope) and through the Lean toQueryStr; '
         'so do dictionaries with NON-STRING values - float (0.0, -0.0, both neighbours of the repr switches at 1e16 and 1e-4, 1e20, 1.5e300, max, min subnormal, inf, nan, random bit patterns, powers of ten 1e-30..1e40), int (0, negative, 2**63, 10**30, 4300 digits), bool, None, Decimal, Fraction, complex, UUID, date, datetime (with UTC offset), bytes, '
         'an object with __str__, and lists of them (one type or mixed) - which must come back as {name: str(value)} (booleans: any text of the documented table) and through the typed getter of their type as the value itself (floats bit for bit, NaN as NaN); '
         'int() is compared with Gt.pyInt on every code point alone and next to digits/signs (quick: all below U+3100, around every digit block, a sample of the rest) and on ALL strings of length <= 4/5 over {0 7 _ + - space \\x1c NBSP Arabic-3 x EM-SPACE}. '
@@ -186,10 +191,134 @@ def run(ctx):
     async def _receive():  # never awaited
         return {'type': 'http.disconnect'}
 
+    # ---- ENTRY POINTS through which a request object comes into being (the mapping must be the reading of the query string under the options
+    #      the APPLICATION configured - app.req_options - on every one of them; a request constructed without options reads it under the
+    #      documented defaults keep_blank_qs_values=True, auto_parse_qs_csv=False):
+    #        wsgi / asgi                    falcon.Request(env, options=o) / falcon.asgi.Request(scope, receive, options=o)
+    #        wsgi_noopt / asgi_noopt        the same constructors without options (asgi_noopt: also on a websocket scope)
+    #        wsgi_app                       falcon.App()(environ, start_response): the request handed to middleware process_request and the responder
+    #        asgi_app_http                  falcon.asgi.App()(http scope, receive, send): likewise
+    #        asgi_app_ws                    falcon.asgi.App()(websocket scope, ...): the handshake request handed to process_request_ws and on_websocket
+    #      The apps vary in the other RequestOptions fields request.py reads while building the request (strip_url_path_trailing_slash, on WSGI the
+    #      deprecated auto_parse_form_urlencoded - documented to leave a GET alone), in request_type (the stock class or a subclass) and in the
+    #      place the options were set (attributes of app.req_options, or a RequestOptions object assigned to app.req_options).
+    import asyncio
+    import warnings
+    DEFAULT_OPTS = (True, False)          # documented: keep_blank_qs_values defaults to True, auto_parse_qs_csv to False
+    APP_ENTRIES = ('wsgi_app', 'asgi_app_http', 'asgi_app_ws')
+    NOOPT_ENTRIES = ('wsgi_noopt', 'asgi_noopt')
+    EXTRA_ENTRIES = APP_ENTRIES + NOOPT_ENTRIES
+    LOOP = asyncio.new_event_loop()
+    APPS = {}
+
+    class _SubWsgiRequest(falcon.Request):
+        pass
+
+    class _SubAsgiRequest(falcon.asgi.Request):
+        pass
+
+    class _Box:
+        """Resource + middleware that keep the request objects the framework hands out."""
+        def __init__(self):
+            self.seen = []
+
+        def process_request(self, req, resp):
+            self.seen.append(('process_request', req))
+
+        async def process_request_async(self, req, resp):
+            self.seen.append(('process_request', req))
+
+        async def process_request_ws(self, req, ws):
+            self.seen.append(('process_request_ws', req))
+
+    class _WsgiRes:
+        def __init__(self, box): self.box = box
+        def on_get(self, req, resp): self.box.seen.append(('on_get', req))
+
+    class _AsgiRes:
+        def __init__(self, box): self.box = box
+
+        async def on_get(self, req, resp): self.box.seen.append(('on_get', req))
+
+        async def on_websocket(self, req, ws):
+            self.box.seen.append(('on_websocket', req))
+            await ws.accept()
+            await ws.close()
+
+    def _app(stack, kb, csv):
+        variant = rnd.randrange(8)
+        key = (stack, kb, csv, variant)
+        if key not in APPS:
+            sub, assign, strip = bool(variant & 1), bool(variant & 2), bool(variant & 4)
+            box = _Box()
+            if stack == 'wsgi':
+                app = falcon.App(middleware=[box], request_type=_SubWsgiRequest if sub else falcon.Request)
+                res = _WsgiRes(box)
+            else:
+                app = falcon.asgi.App(middleware=[box], request_type=_SubAsgiRequest if sub else falcon.asgi.Request)
+                res = _AsgiRes(box)
+            o = falcon.RequestOptions() if assign else app.req_options
+            o.keep_blank_qs_values = kb
+            o.auto_parse_qs_csv = csv
+            o.strip_url_path_trailing_slash = strip
+            if stack == 'wsgi' and strip:
+                with warnings.catch_warnings():
+                    warnings.simplefilter('ignore')
+                    o.auto_parse_form_urlencoded = True       # (deprecated, WSGI only; "not ... for GET": the mapping stays the reading of the query string)
+            if assign:
+                app.req_options = o
+            app.add_route('/', res)
+            APPS[key] = (app, box, 'request_type=' + ('subclass' if sub else 'stock') + ', options ' + ('assigned as an object' if assign else 'set on app.req_options')
+                         + (', strip_url_path_trailing_slash' + ('+auto_parse_form_urlencoded' if stack == 'wsgi' else '') if strip else ''))
+        return APPS[key]
+
+    def _events(evs):
+        evs = list(evs)
+
+        async def receive():
+            if evs:
+                return evs.pop(0)
+            await asyncio.sleep(3600)
+        return receive
+
+    async def _send(ev):
+        pass
+
+    def _via_app(iface, qs, kb, csv):
+        stack = 'wsgi' if iface == 'wsgi_app' else 'asgi'
+        app, box, how = _app(stack, kb, csv)
+        del box.seen[:]
+        if iface == 'wsgi_app':
+            for _ in app(ft.create_environ(query_string=qs), lambda status, headers, exc_info=None: None):
+                pass
+            want_at = ['process_request', 'on_get']
+        elif iface == 'asgi_app_http':
+            scope = ft.create_scope(query_string=qs)
+            LOOP.run_until_complete(asyncio.wait_for(app(scope, _events([{'type': 'http.request', 'body': b'', 'more_body': False}, {'type': 'http.disconnect'}]), _send), 3))
+            want_at = ['process_request', 'on_get']
+        else:
+            scope = ft.create_scope_ws(query_string=qs)
+            LOOP.run_until_complete(asyncio.wait_for(app(scope, _events([{'type': 'websocket.connect'}, {'type': 'websocket.disconnect', 'code': 1000}]), _send), 3))
+            want_at = ['process_request_ws', 'on_websocket']
+        at = [w for w, _ in box.seen]
+        if at != want_at:
+            raise AssertionError(f'{iface}: the request was handed out at {at!r}, expected {want_at!r} ({how})')
+        reqs = [r for _, r in box.seen]
+        if reqs[0] is not reqs[1]:
+            raise AssertionError(f'{iface}: middleware and responder received different request objects ({how})')
+        ctx.count('app_variant_' + how.replace(' ', '_').replace(',', ''))
+        return reqs[1]
+
     def _build(iface, qs, kb, csv):
         if iface == 'wsgi':
             return falcon.Request(ft.create_environ(query_string=qs), options=OPTS[(kb, csv)])
-        return falcon.asgi.Request(ft.create_scope(query_string=qs), _receive, options=OPTS[(kb, csv)])
+        if iface == 'asgi':
+            return falcon.asgi.Request(ft.create_scope(query_string=qs), _receive, options=OPTS[(kb, csv)])
+        if iface == 'wsgi_noopt':
+            return falcon.Request(ft.create_environ(query_string=qs))
+        if iface == 'asgi_noopt':
+            return falcon.asgi.Request(ft.create_scope_ws(query_string=qs) if rnd.random() < 0.5 else ft.create_scope(query_string=qs), _receive)
+        return _via_app(iface, qs, kb, csv)
 
     def make_req(iface, qs, kb, csv):
         # One request in eight is preceded by an EARLIER request with the same query string and options whose handler scribbles
@@ -481,13 +610,20 @@ def run(ctx):
     PARSE_ORACLE = ('params == form-urlencoded reference reading (split on & and first =, %/+ decoding as UTF-8 with replacement, malformed escapes literal, '
                     'repeats collected in order, blank rule, CSV on literal commas only); parsing never raises')
 
+    ROT = [ctx.shard[0]]
+
     def one_qs(qs, kind, rich, combos=((False, False), (False, True), (True, False), (True, True)), getters_on=('wsgi', 'asgi')):
         h = hx(qs.encode('utf-8'))
         MODEL_P[0] = 0.5 if kind == 'exhaustive' else 1.0
-        for kb, csv in combos:
-            want = ref_parse(qs, kb, csv)
-            line = f'{1 if kb else 0} {1 if csv else 0} {h}'
-            for iface in (('direct',) if qs.startswith('?') else ('direct', 'wsgi', 'asgi')):   # (create_environ refuses a leading '?')
+        for kb_conf, csv_conf in combos:
+            # besides the three basic entry points, ONE of the five others in rotation (5 entries x 4 option settings: every pair comes up)
+            extra = EXTRA_ENTRIES[ROT[0] % len(EXTRA_ENTRIES)]
+            ROT[0] += 1
+            for iface in (('direct',) if qs.startswith('?') else ('direct', 'wsgi', 'asgi', extra)):   # (create_environ refuses a leading '?')
+                # the options in force: what the application / the caller configured; the documented defaults when a request is constructed without options
+                kb, csv = DEFAULT_OPTS if iface in NOOPT_ENTRIES else (kb_conf, csv_conf)
+                want = ref_parse(qs, kb, csv)
+                line = f'{1 if kb else 0} {1 if csv else 0} {h}'
                 req = None
                 try:
                     if iface == 'direct':
@@ -505,9 +641,19 @@ def run(ctx):
                 sess.case({'kind': kind, 'entry': iface})
                 sess.op(line, exp)
                 case = {'query_string': qs, 'keep_blank_qs_values': kb, 'auto_parse_qs_csv': csv, 'entry': iface}
+                if iface in NOOPT_ENTRIES:
+                    case['options'] = 'none passed to the constructor: the documented defaults apply'
+                elif iface in APP_ENTRIES:
+                    case['options'] = 'configured on the application (app.req_options)'
                 ctx.oracle(PARSE_ORACLE, bad is None, bad, case)
                 ctx.seen((qs, kb, csv, iface), bool(want))
-                if req is not None and bad is None and iface in getters_on:
+                if iface in EXTRA_ENTRIES:
+                    ctx.count('entry_' + iface + ('_default_options' if (kb, csv) == DEFAULT_OPTS else '_non_default_options')
+                              + ('_option_sensitive_string' if want != ref_parse(qs, *DEFAULT_OPTS) else ''))
+                    # the typed getters on the request the application handed out: on half of the structured / random strings, on 15 % of the exhaustive ones
+                    if req is not None and bad is None and rnd.random() < (0.5 if kind != 'exhaustive' else 0.15 if len(qs) < 5 else 0.0):
+                        check_getters(req, want, case, rich)
+                elif req is not None and bad is None and iface in getters_on:
                     check_getters(req, want, case, rich)
 
     # 1. the complete bounded space
@@ -687,7 +833,7 @@ def run(ctx):
         cdl = rnd.random() < 0.5
         csv = cdl or rnd.random() < 0.5
         bad = None
-        entry = rnd.choice(['direct', 'wsgi', 'asgi'])
+        entry = rnd.choice(('direct', 'wsgi', 'asgi', 'direct', 'wsgi', 'asgi') + APP_ENTRIES)
         try:
             qs = to_query_str(m, comma_delimited_lists=cdl, prefix=False)
             if m and to_query_str(m, comma_delimited_lists=cdl) != '?' + qs:
@@ -832,7 +978,7 @@ def run(ctx):
                     ctx.count('typed_float_' + ('nonfinite' if not math.isfinite(x) else 'exponent_plus' if 'e+' in repr(x) else 'exponent_minus' if 'e-' in repr(x) else 'positional'))
         cdl = rnd.random() < 0.5
         csv = cdl or rnd.random() < 0.5
-        entry = rnd.choice(['direct', 'wsgi', 'asgi', 'wsgi', 'asgi'])
+        entry = rnd.choice(('direct', 'wsgi', 'asgi', 'wsgi', 'asgi') + APP_ENTRIES)
         bad = None
         qs = back = None
         try:
@@ -948,7 +1094,7 @@ def run(ctx):
         cdl, pfx = rnd.random() < 0.5, rnd.random() < 0.5
         keep_blank = rnd.random() < 0.7
         csv = cdl or rnd.random() < 0.5
-        entry = rnd.choice(['wsgi', 'asgi'])
+        entry = rnd.choice(('wsgi', 'asgi', 'wsgi', 'asgi') + APP_ENTRIES)
         sesst.case({'kind': 'typed to_query_str', 'mapping': trepr(m)[:600], 'comma_delimited_lists': cdl, 'prefix': pfx, 'keep_blank_qs_values': keep_blank, 'auto_parse_qs_csv': csv, 'entry': entry})
         raised = None
         try:
@@ -1059,8 +1205,8 @@ LEVEL_TEXT = ('Machine-checked proofs (Lean 4), all for unbounded inputs: the pa
               'get_param_as_bool and get_param_as_list are transcribed statement by statement and proved, for every mapping and all arguments, to use the last occurrence, to honour min/max exactly (0 included), '
               'to follow required/default/store exactly (store[name] = value and nothing else), to have only the documented outcomes (the F06 IndexError exit is unreachable), and to read booleans by the documented table - '
               'also composed with parseQS_eq_ref into statements about the raw query string; to_query_str is modelled and parse(to_query_str(m)) = m is proved for every well-formed mapping, with a witness that each side condition is needed. '
-              'Model = code is checked on every run by a complete enumeration of every string up to length 4/5 over a 10-letter alphabet x 4 option settings through uri.parse_query_string, falcon.Request and falcon.asgi.Request, '
+              'Model = code is checked on every run by a complete enumeration of every string up to length 4/5 over a 10-letter alphabet x 4 option settings through uri.parse_query_string, falcon.Request and falcon.asgi.Request, and in rotation through the other entry points that create a request (WSGI app call, ASGI app on http and websocket scopes with the options configured on app.req_options, constructors without options), '
               'by about a million getter calls (result and store), by int() on every code point and by to_query_str renderings, all compared with the compiled Lean model (correspondence), and independently with a reference parser and reference conversions (oracle).')
 LEVEL_NOTE = ('Not proved: get_param_as_float / _as_uuid / _as_datetime / _as_date / _as_json (float() and library parsers are not modelled; checked against the same CPython functions by the oracle) and the UTF-8 replacement decoder has no separate specification. '
               'Trusted: float/UUID/strptime/json as reference conversions; the Unicode digit table and the int digit limit are those of the running interpreter.')
-TECHNIQUE = 'Lean 4 proofs (parser = reference, typed getters, to_query_str round trip; all unbounded) + exhaustive-bounded differential correspondence (model vs code, 3 entry points, getters with store, int() per code point) + independent reference-parser and getter oracle'
+TECHNIQUE = 'Lean 4 proofs (parser = reference, typed getters, to_query_str round trip; all unbounded) + exhaustive-bounded differential correspondence (model vs code, 8 entry points incl. WSGI / ASGI http / ASGI websocket app calls under the configured req_options, getters with store, int() per code point) + independent reference-parser and getter oracle'
